@@ -70,7 +70,8 @@ def operand_choices(name):
         vals = [('x', b'\xcd' * n) for n in (1, 255, 256, 32767, 32768, 65535)] + [('d', 1), ('d', -70000), ('s', 'str')]
         return [[v] for v in vals]
     if kd == 'wc':
-        return [[k, c] for k in (('x', b'k'), ('s', 'key'), ('x', b'\x11' * 255), ('s', 'P'))
+        return [[k, c] for k in (('x', b'k'), ('s', 'key'), ('x', b'\x11' * 255), ('s', 'P'), ('d', 0), ('d', 1), ('d', 127), ('d', 128),
+                                 ('d', 255), ('d', 256), ('d', 32767), ('d', 32768), ('d', 65535), ('d', 65536), ('d', 2 ** 24 - 1), ('d', 2 ** 31))
                 for c in (('d', 0), ('d', 1), ('d', 255), ('x', b'\xff'), ('x', b'\x02'))]
     if kd == 'f32':
         return [[v] for v in (('f', 2.0), ('f', -3.0), ('f', 1.5), ('fi', 2), ('fi', -3), ('fi', 0), ('fi', -1), ('fi', 16777217),
@@ -479,6 +480,44 @@ def from_src_case(ctx, name):
             ctx.violation({'family': 'Script.from_src', 'clause': 'same bytes as compile_script'}, f'{src!r}: {a} vs {b}')
 
 
+HISTORIES = [
+    ('!= dbl [ v ] { push v push v } !dbl [ d1 ]', '!dbl [ d9 ] true'),
+    ('if { != inif [ ] { false } !inif [ ] }', '!inif [ ] true'),
+    ('push ~ { != inct [ ] { true } !inct [ ] }', '!inct [ ]'),
+    ('@= v1 [ d1 ] != setv [ ] { @v1 } !setv [ ]', 'true !setv [ ]'),
+]
+
+
+def history_case(ctx, case):
+    """one compilation leaves nothing behind for the next: a macro defined by an earlier source is undefined in a later one,
+    and compiling the same source twice gives the same bytes (through compile_script and Script.from_src)"""
+    first, second = case
+    for compiler in (env.parsing.compile_script, lambda s_: env.tools.Script.from_src(s_).bytes):
+        b1, e1 = None, None
+        try:
+            b1 = compiler(first)
+            b1_again = compiler(first)
+        except BaseException as e:
+            e1 = e
+        ctx.ran(2)
+        ctx.state(('history', first, second))
+        if e1 is not None or b1 != b1_again:
+            ctx.violation({'family': 'compile histories', 'clause': 'the same source compiles to the same bytes every time'},
+                          f'{first!r}: {e1!r}')
+            continue
+        try:
+            got = compiler(second)
+            err = None
+        except BaseException as e:
+            got, err = None, e
+        ctx.ran()
+        ctx.outcome('history:' + ('rejected' if err is not None else 'ACCEPTED'))
+        if err is None:
+            ctx.violation({'family': 'compile histories', 'clause': 'un-encodable source must be rejected',
+                           'history': 'macro defined by an earlier compilation'},
+                          f'after compiling {first!r}, the source {second!r} compiled to {got.hex()}')
+
+
 def blocks(tier, seed):
     q = tier == 'quick'
     plain = [nm for nm in OPNAMES if refasm.kind(nm) != 'block']
@@ -496,6 +535,8 @@ def blocks(tier, seed):
               'nesting chains x styles', nshards=32),
         Block('C_variables_macros_comptime', sugar_cases(), sugar_case, 'syntactic sugar forms', nshards=8),
         Block('D_unencodable_sources', bad_sources(), bad_case, 'operands one past their range, unknown names, unterminated constructs', nshards=16),
+        Block('compile_histories', list(HISTORIES), history_case,
+              'a source that defines a macro, then a source that only invokes it; each source twice', nshards=len(HISTORIES)),
         Block('Script_from_src', plain, from_src_case, 'Script.from_src agrees with compile_script', nshards=8),
     ]
     return bl
